@@ -516,7 +516,9 @@ func (pr *printer) taskOpt(t *Task) string {
 		return i
 	}
 	if t.Pred != nil {
-		tos = append(tos, to{rk(0), func() string { return "cff.Predicate(" + pr.wp(pr.fnExpr(t.Pred, nil), pr.fnPoisonIf(t.Pred, nil)) + ")" }})
+		tos = append(tos, to{rk(0), func() string {
+			return "cff.Predicate(" + pr.wp(pr.fnExpr(t.Pred, nil), pr.fnPoisonIf(t.Pred, nil)) + ")"
+		}})
 	}
 	if t.Fallback {
 		tos = append(tos, to{rk(1), func() string {
